@@ -296,9 +296,12 @@ class SigmaString(SigmaType):
                     )  # append everything from end of last placeholder until end of string (if not empty) to result string
             else:  # special characters are passed to the result
                 res.append(part)
-        self.s = res  # finally replace the string with the result
-
-        return self
+        # The result is a new string: the string this method is called on (the original value of a
+        # detection item) must keep its escaped percent characters.
+        result = self.__class__()
+        result.s = res
+        result.original = self.original
+        return result
 
     def replace_with_placeholder(
         self, regex: re.Pattern[str], placeholder_name: str
@@ -843,9 +846,8 @@ class SigmaRegularExpression(SigmaType):
         Replace %something% placeholders with Placeholder stub objects that can be later handled by the processing
         pipeline. This implements the expand modifier.
         """
-        self.regexp = self.regexp.insert_placeholders()
-        self.compile()  # recompile after inserting placeholders
-        return self
+        result = SigmaRegularExpression(self.regexp.insert_placeholders(), set(self.flags))
+        return result
 
     def replace_placeholders(
         self,
